@@ -128,7 +128,7 @@ theorem zValidate_ok_iff (C : Codec) (F : Flags) (d : Digest) (acc : Bytes) (ter
           · simp [h2, h3]; intro hc _ hh; rw [hc] at hh; exact absurd hh h3
     | trunc =>
       cases term with
-      | some e => simp
+      | some e => simp; split <;> simp
       | none =>
         by_cases h2 : (C.dec acc).1.length < d.size
         · simp [h2]; intro hc hl; rw [hc] at hl; omega
